@@ -46,6 +46,33 @@ Proof.
   apply andb_true_iff in H as [H1 H2]. destruct l; [|discriminate]. now apply IH.
 Qed.
 
+Lemma set_nth_map : forall {A B} (g : A -> B) (ls : list A) i x,
+  set_nth (map g ls) i (g x) = map g (set_nth ls i x).
+Proof.
+  induction ls as [|l ls IH]; intros i x; [now destruct i|].
+  destruct i as [|i]; simpl; [reflexivity|]. now rewrite IH.
+Qed.
+
+(** an interleaving (C02's [pops]) of mapped sequences is the map of an interleaving *)
+Lemma pops_map_inv : forall {A B} (f : A -> B) order (ls : list (list A)) ps' rem',
+  pops (map (map f) ls) order = Some (ps', rem') ->
+  exists ps rem, pops ls order = Some (ps, rem) /\ ps' = map f ps /\ rem' = map (map f) rem.
+Proof.
+  induction order as [|i o IH]; intros ls ps' rem' H; simpl in H.
+  - inversion H; subst. exists [], ls. auto.
+  - rewrite nth_error_map in H. simpl. destruct (nth_error ls i) as [[|x xs]|]; simpl in H; try discriminate.
+    change (map f xs) with ((map f) xs) in H. rewrite (set_nth_map (map f)) in H.
+    destruct (pops (map (map f) (set_nth ls i xs)) o) as [[r ls']|] eqn:P; try discriminate.
+    inversion H; subst. destruct (IH _ _ _ P) as (ps & rem & Hp & -> & ->).
+    exists (x :: ps), rem. rewrite Hp. auto.
+Qed.
+
+Lemma all_nil_map : forall {A B} (f : A -> B) (ls : list (list A)),
+  all_nil (map (map f) ls) = all_nil ls.
+Proof.
+  induction ls as [|l ls IH]; [reflexivity|]. unfold all_nil in *. simpl. rewrite IH. now destruct l.
+Qed.
+
 Section AllSchedules.
   (** Socket.IO layer *)
   Variables (name arg offset : Type).
@@ -117,8 +144,13 @@ Section AllSchedules.
       sig_matches name arg hs (map fst (concat ems)) ->
       reachable_from declared max_atts split tr (programs c ems) s ->
       quiescent_state s ->
-      (* the peer's parser did not fail, finished every emitted packet, none pending *)
+      (* the peer's parser did not fail, is idle, and finished exactly the emitted (stamped)
+         events in an order that is an interleaving of the per-emitter sequences (C02's [pops];
+         per-emitter order: C02_per_emitter_order) *)
       st_rerr s = false /\ st_parser s = None /\
+      (exists order evs rem,
+          pops ems order = Some (evs, rem) /\ all_nil rem = true /\
+          decoded (st_finished s) = map (stamp name arg offset off_arg c) evs) /\
       (* every handler: the multiset it was handed = the multiset emitted under its name *)
       forall h, In h hs ->
         Permutation (handed arg (hid name h) (sched_deliveries c s))
@@ -129,16 +161,24 @@ Section AllSchedules.
     { unfold programs. apply Forall_forall. intros l Hl. apply in_map_iff in Hl as [l0 [<- _]].
       apply Forall_forall. intros p Hp. apply in_map_iff in Hp as [x [<- _]]. apply encode_wf. }
     pose proof (reassembly_complete declared max_atts split split_keeps tr (programs c ems) Hwf s R Q)
-      as [_ [Hpar Hent]].
+      as [Hfin [Hpar Hent]].
     pose proof (no_rerr declared max_atts split split_keeps tr (programs c ems) Hwf s R) as Hr.
     pose proof (inv_reachable declared max_atts split split_keeps tr (programs c ems) s R) as Hinv.
     destruct Hinv as [_ Hlog _ _ _].
     destruct Q as [Hnil _].
+    assert (Horder : exists order evs rem,
+               pops ems order = Some (evs, rem) /\ all_nil rem = true /\
+               decoded (st_finished s) = map (stamp name arg offset off_arg c) evs).
+    { unfold programs in Hlog. destruct (pops_map_inv _ _ _ _ _ Hlog) as (evs & rem & Hp & Hps & Hrem).
+      exists (map fst (st_log s)), evs, rem. split; [exact Hp|]. split.
+      - rewrite Hrem, all_nil_map in Hnil. exact Hnil.
+      - rewrite Hfin, Hps. rewrite <- (map_map (stamp name arg offset off_arg c) encode_sp).
+        apply decoded_encoded. }
     apply pops_perm in Hlog. rewrite (all_nil_concat' _ Hnil), app_nil_r in Hlog.
     assert (Hall : Permutation (st_entered s)
                      (map encode_sp (map (stamp name arg offset off_arg c) (concat ems)))).
     { rewrite <- concat_programs. etransitivity; [exact Hent | symmetry; exact Hlog]. }
-    split; [exact Hr | split; [exact Hpar |]].
+    split; [exact Hr | split; [exact Hpar | split; [exact Horder |]]].
     intros h Hh. unfold sched_deliveries.
     apply decoded_perm in Hall. rewrite decoded_encoded in Hall.
     etransitivity.
